@@ -141,6 +141,18 @@ func (m *Machine) interval(t *term.Term) ival {
 		if b.lo > 0 {
 			r = ival{0, b.hi - 1}
 		}
+	case term.OpSrem:
+		// both operands known non-negative: same as urem
+		a, b := m.interval(t.Args[0]), m.interval(t.Args[1])
+		top := uint64(1) << uint(t.W-1)
+		if a.hi < top && b.hi < top && b.lo > 0 {
+			r = ival{0, b.hi - 1}
+		}
+	case term.OpConcat:
+		// zero high part: value of the low part
+		if v, ok := t.Args[0].ConstVal(); ok && v == 0 {
+			r = m.interval(t.Args[1])
+		}
 	case term.OpIte:
 		a, b := m.interval(t.Args[1]), m.interval(t.Args[2])
 		r = ival{minu(a.lo, b.lo), maxu(a.hi, b.hi)}
